@@ -81,6 +81,7 @@
             assert!(sink == model_sink, "{seq:?}: real writer got {sink:?}, model {model_sink:?}");
         }
         let mut count = 0u64;
-        rec(&mut Vec::new(), 0, 8, &mut count);
+        let thorough = std::env::var("VERIF_TIER").map_or(false, |t| t == "thorough");
+        rec(&mut Vec::new(), 0, if thorough { 10 } else { 8 }, &mut count);
         assert!(count > 30_000, "{count}");
     }
